@@ -75,5 +75,20 @@ Theorem c12_valve_challenged_then_silent : forall bz port retries e protocol kin
 Proof. exact valve_unit_challenged_then_silent. Qed.
 Print Assumptions c12_valve_challenged_then_silent.
 
+(* the model's side of "received datagrams are delivered unmodified up to the requested size": a receive hands over the
+   first `size` bytes of the datagram (1024 when no size is requested), the whole datagram when it fits; the sizes the
+   Valve, Unreal 2 and default receives ask for.  That the operating system delivers datagrams this way is measured. *)
+From GD Require Import Proofs.ReceiveContract.
+Theorem c12_receive_contract : forall size d (u : list udp_event) t f sn cur tr,
+  udp_recv size (mknet (Datagram d :: u) t f sn cur tr)
+  = (Ok (firstn (N.to_nat (match size with Some s => s | None => 1024 end)) d), mknet u t f sn cur (RecvEv size :: tr))
+  /\ ((length d <= N.to_nat (match size with Some s => s | None => 1024 end))%nat ->
+      udp_recv size (mknet (Datagram d :: u) t f sn cur tr) = (Ok d, mknet u t f sn cur (RecvEv size :: tr))).
+Proof. exact (fun size d u t f sn cur tr => conj (receive_contract size d u t f sn cur tr) (receive_whole size d u t f sn cur tr)). Qed.
+Print Assumptions c12_receive_contract.
+Theorem c12_receive_sizes : packet_size = 6144 /\ u2_packet_size = 1024 /\ default_packet_size = 1024.
+Proof. exact receive_sizes. Qed.
+Print Assumptions c12_receive_sizes.
+
 Example c12_ex : silent (net_init [] [] []) /\ recvs (net_init [] [] []) = 0%nat.
 Proof. repeat split. Qed.
